@@ -1338,5 +1338,6 @@ def sub_report(ctx):
     s.repo = ctx.repo
     s.prog = ctx.prog
     s.explain = None
+    s.is_sub = True
     s.report = Report("C15")
     return s
